@@ -180,7 +180,8 @@ def run(tier, rep, ev):
         cases.append({"sessions": sessions, "password": pw, "seed": R.getrandbits(30), "wd": os.path.join(base, f"c{len(cases)}")})
 
     for k, ch in enumerate(chains):
-        pw = "pä\U0001F511" if ("AES" in ch or k % 7 == 0) else None
+        # pass phrases incl. strings that are not in Unicode normal form C (the key is derived from the UTF-16 code units as given)
+        pw = ["pä\U0001F511", "a\u0308o\u0308 decomposed", "\u1100\u1161\u11a8 jamo"][k % 3] if ("AES" in ch or k % 7 == 0) else None
         # (PPMd: small members only - pyppmd 1.1.1 crashes on MiB-sized incompressible input also inside the reference reader)
         add([{"chain": ch, "header": ["encoded", "raw", "encrypted"][k % 3], "members": mlists[k % (11 if "PPMd" in ch else len(mlists))]}], pw)
     for k in range(150 if tier == "quick" else 1500):
